@@ -314,6 +314,70 @@ def model_pos_in_file(ctx, model):
     return c
 
 
+def h_alloc_view(ctx):
+    """The view handed out by MachineController.sdram_alloc_as_filelike
+    (real method; the allocation, fill, read and write of the controller are
+    recorders): it covers exactly the `size` bytes asked for, at the address
+    the allocation returned, whether or not the block was cleared."""
+    from rig.machine_control import machine_controller as mcm
+    size = ctx.int("size", 0)
+    base = ctx.int("base", 0)
+    clear = ctx.pick([False, True])
+    log = []
+
+    class Recorder(mcm.MachineController):
+        def sdram_alloc(self, size_, tag=0, x=None, y=None, app_id=None,
+                        clear=False):
+            log.append(("alloc", size_, clear))
+            return base
+
+        def fill(self, *a, **k):
+            log.append(("fill",) + a)
+
+        def read(self, address, length, x, y, p=0):
+            log.append(("r", address, length, x, y, p))
+            return Token(address, length)
+
+        def write(self, address, data, x, y, p=0):
+            log.append(("w", address, len(data), x, y, p, data))
+    saved_conn = mcm.SCPConnection
+    mcm.SCPConnection = lambda *a, **kw: object()
+    try:
+        mc = Recorder("host")
+        try:
+            view = mc.sdram_alloc_as_filelike(size, 3, x=1, y=2, app_id=30,
+                                              clear=clear)
+        except Exception as e:
+            ctx.observe(type(e).__name__)
+            ctx.prove(False, "view-unexpected-exception", repr(e))
+            return
+        ctx.observe("view", view.address, view.__len__())
+        ctx.witness("view")
+        ctx.prove(sand(view.address == base, view.__len__() == size,
+                       view.tell() == 0), "view-slice-range",
+                  (view.address, view.__len__(), base, size))
+        allocs = [e for e in log if e[0] == "alloc"]
+        ctx.prove(len(allocs) == 1 and allocs[0][1] is size,
+                  "view-alloc-size", repr(allocs))
+        # a read of everything and a write at the end stay inside
+        mark = len(log)
+        with warnings.catch_warnings(record=True):
+            warnings.simplefilter("always")
+            view.read()
+            view.seek(size - 1)
+            view.write(ctx.bytes("w", 3))
+        for a in log[mark:]:
+            if a[0] in ("r", "w"):
+                ctx.witness("access")
+                ctx.prove(sand(a[2] > 0, base <= a[1],
+                               a[1] + a[2] <= base + size),
+                          "view-access-outside-region",
+                          (a[0], a[1], a[2], base, size))
+                ctx.prove((a[3], a[4], a[5]) == (1, 2, 0), "view-wrong-chip")
+    finally:
+        mcm.SCPConnection = saved_conn
+
+
 def h_step(ctx):
     """Non-contiguous slices are rejected (concrete, one path)."""
     from rig.machine_control.machine_controller import MemoryIO
@@ -332,7 +396,9 @@ def h_step(ctx):
 
 
 def units(tier, seed):
-    us = [Unit("noncontiguous slices", h_step)]
+    us = [Unit("noncontiguous slices", h_step),
+          Unit("view from sdram_alloc_as_filelike", h_alloc_view, {},
+               witnesses=("view", "access"))]
     us.append(Unit("ops=1", h_views, dict(nops=1, wlens=(0, 1, 3, 6))))
     us.append(Unit("ops=2", h_views, dict(nops=2, wlens=(1, 3)), split=3,
                    witnesses=("access", "read-data", "write-data", "sliced",
